@@ -3,6 +3,15 @@
 import json, subprocess
 
 CHECKS = {
+ "C06": ("exploration", "full-grammar rule generation with a planted absent literal; identity oracle on the structural word",
+         "Random full-grammar rules (all four rule types and every construct) into which a literal that does not occur in the word is planted as a mandatory element of every input term (insertion: of the context), plus blank/comment lines; whenever the call returns Ok the structural word must be unchanged and asca::run must print what the empty rule list prints.",
+         "Trusted: the planter (AST-level, independent of asca's parser) and the structural hook. Only Ok results are judged. Two insertion fall-back shapes are listed known findings.", "DESIGN.md §5 C06"),
+ "C08": ("exploration", "random rule-group histories biased to deletion/metathesis/boundary edits; structural invariants checked after every group",
+         "Histories of 1-6 rule groups from a prosody-biased template generator and the full-grammar generator are applied to generated words; after every group the internal word must satisfy the structural invariants of the property (≥1 syllable, no empty syllable, tone ≤4 non-zero digits, no stray bits, no payload of an absent sub-node, empty place absent), read from the raw fields.",
+         "Trusted: the structural hook (apply_groups) and the documented bit layout. Only histories that return Ok are judged. Empty syllables produced by insertion rules with `%`/variables are a listed known finding.", "DESIGN.md §5 C08"),
+ "C03": ("exploration", "bounded-exhaustive + random differential testing against an independent reference interpreter of the basic rule fragment",
+         "Rules of the basic fragment (one segment in, one segment or feature change out, context, exception, environment sets, `#`, `$`) are enumerated exhaustively per two-factor slice and sampled randomly over the full product, and applied to all small words in every syllabification plus random words; asca's structural result must equal that of a reference interpreter written from the manual. Discards by the property's precondition (equal adjacent segments) are counted.",
+         "Trusted: the reference interpreter (≈80 lines) and the manual's group definitions; the structural hook. Not exhaustive over the full product of contexts (≈10^8 rules): 1/64 (quick) or 1/8 (thorough) of the two-element contexts are enumerated, the rest is sampled.", "DESIGN.md §5 C03"),
  "C04": ("exploration", "exhaustive enumeration (all bases and base+1 diacritic × all feature/node/alpha rules) against a bit-level reference model",
          "Every base phone and every base+diacritic segment, alone and inside a three-syllable word, under every `[] > [±F]`, `[] > [±node]`, `[±F]/[±node] > marker`, `[αF] > [±αG]` (26×26) and node-alpha rule; asca's structural result is compared with a 30-line bit-level model of matching and setting. Exhaustive for that finite space in both tiers.",
          "Trusted: the feature→(node,bit) chart typed from the manual; conversion from asca::Segment through public accessors (checked separately by C18).", "DESIGN.md §5 C04"),
